@@ -445,6 +445,8 @@ pub fn cell_str(c: &mut Chooser, default: &str) -> String {
         "a".to_string(),
         "Zürich 東京 ☃".to_string(),
         "with space \\ and _".to_string(),
+        // (blanks at the edges belong to the name)
+        " padded name ".to_string(),
         long_string(100),
     ])
 }
